@@ -82,4 +82,19 @@ theorem demonLoop_jobs (ks : KeyStream) (hcont : ∀ n, n ≥ 12 → Gen.Demon.d
       rw [ih k fuel' (acc ++ [j.view]) hf' (fun x hx => h x (by simp at hx ⊢; right; exact hx))]
       simp
 
+/-- regenerated fact: the Demon's task loop goes on while at least one frame header is left -/
+theorem loop_continues (n : Nat) (h : n ≥ 12) : Gen.Demon.dispatcherContinue n = true := by
+  simp [Gen.Demon.dispatcherContinue]; omega
+
+theorem loop_stops : Gen.Demon.dispatcherContinue 0 = false := by
+  simp [Gen.Demon.dispatcherContinue]
+
+theorem dispatch_roundtrip (ks : KeyStream) (j : Job) (js : List Job) (h : ∀ x ∈ j :: js, x.wf) :
+    demonDispatch ks (buildPayload ks (j :: js)) = some ((j :: js).map Job.view) := by
+  unfold demonDispatch
+  have hl := buildPayload_length ks (j :: js)
+  have := demonLoop_jobs ks loop_continues loop_stops js j (buildPayload ks (j :: js)).length []
+    (by simp at hl ⊢; omega) h
+  simpa using this
+
 end Havoc
